@@ -36,6 +36,8 @@ type SrvQuery struct {
 	ECS     int  `json:"ecs,omitempty"`     // 0 = none, else index+1 into srvECS
 	BadVers bool `json:"badvers,omitempty"` // EDNS version 1: must be answered with BADVERS
 	SleepMs int  `json:"sleep_ms,omitempty"`
+	// Hdr varies the header bits a response echoes from its query: bit 0 clears RD, bit 1 sets CD
+	Hdr int `json:"hdr,omitempty"`
 }
 
 var srvECS = []string{"10.1.9.0/24", "10.2.9.0/24", "198.51.100.0/24", "2001:db8:1::/48"}
@@ -431,6 +433,12 @@ func runSrv(t *testing.T, sc *SrvScenario, keep bool, res *core.Result, hooks *s
 					rec.Req = gen.MakeQuery(q.Q, q.EDNS || q.BadVers, ecs, uint16(1000*ci+qi+1))
 					if q.BadVers {
 						rec.Req.IsEdns0().SetVersion(1)
+					}
+					if q.Hdr&1 != 0 {
+						rec.Req.RecursionDesired = false
+					}
+					if q.Hdr&2 != 0 {
+						rec.Req.CheckingDisabled = true
 					}
 					wr := newRecWriter(gen.Clients[q.Client%len(gen.Clients)])
 					h.Queries = append(h.Queries, rec)
@@ -965,6 +973,9 @@ func drawSrv(rt *rapid.T, o srvDrawOpts) SrvScenario {
 		}
 		if o.badvers && rapid.IntRange(0, 11).Draw(rt, "badvers") == 0 {
 			q.BadVers = true
+		}
+		if o.ecs && rapid.IntRange(0, 3).Draw(rt, "hdr_bits") == 0 {
+			q.Hdr = rapid.IntRange(1, 3).Draw(rt, "hdr")
 		}
 		return q
 	})
